@@ -181,3 +181,102 @@ def call_writes_object(P, E, var_record):
                             return True
         return False
     return p
+
+
+# -- wrappers: events performed inside helper functions ---------------------------------------------------
+# A rule that names an event ("the decoder is restarted", "the stream is moved") must see it when a refactoring moves
+# the statement into a helper.  must_do: functions in which EVERY path from entry to exit performs the event (directly
+# or through a call of such a function); may_do: functions that can perform it on SOME path (call-graph closure).
+import cfg as _cfg
+
+
+def _direct_fns(P, F, n):
+    nd = F.ex[n]
+    if nd['k'] != 'call' or 'd' not in nd['callee']:
+        return []
+    G = P.get(nd['callee']['d'], F)
+    return [G] if G is not None else []
+
+
+def must_do(P, spred, files=None):
+    """spred(F, eid) -> bool: a syntactic event.  Returns the set of function keys that perform it on every path."""
+    ck = ('must', id(spred))
+    cache = P.__dict__.setdefault('_k2_wrap', {})
+    if ck in cache:
+        return cache[ck]
+    fns = [F for F in P.functions() if F.entry is not None and (files is None or F.file.endswith(files))]
+    done = set()
+    changed = True
+    while changed:
+        changed = False
+        for F in fns:
+            k = P.key(F)
+            if k in done:
+                continue
+
+            def blk(n, F=F):
+                if spred(F, n):
+                    return True
+                return any(P.key(G) in done for G in _direct_fns(P, F, n))
+            if _cfg.reaches_exit_avoiding(F, None, blk) is None and F.exit is not None:
+                done.add(k)
+                changed = True
+    cache[ck] = done
+    return done
+
+
+def may_do(P, spred):
+    ck = ('may', id(spred))
+    cache = P.__dict__.setdefault('_k2_wrap', {})
+    if ck in cache:
+        return cache[ck]
+    done = {P.key(F) for F in P.functions() if any(spred(F, n) for n in F.pos)}
+    changed = True
+    while changed:
+        changed = False
+        for F in P.functions():
+            k = P.key(F)
+            if k not in done and any(c in done for c in P.callees.get(k, ())):
+                done.add(k)
+                changed = True
+    cache[ck] = done
+    return done
+
+
+def s_call(names):
+    names = set([names] if isinstance(names, str) else names)
+
+    def sp(F, n):
+        nd = F.ex[n]
+        return nd['k'] == 'call' and nd['callee'].get('d') in names
+    return sp
+
+
+def s_store(rec, field):
+    def sp(F, n):
+        nd = F.ex[n]
+        if nd['k'] == 'assign':
+            tgt = nd['c'][0]
+        elif nd['k'] == 'un' and nd['op'] in ('pre++', 'pre--', 'post++', 'post--'):
+            tgt = nd['c'][0]
+        else:
+            return False
+        l = F.ex[F.strip_casts(tgt)]
+        return l['k'] == 'member' and l.get('record') == rec and l.get('field') == field
+    return sp
+
+
+def event(P, spred, mode, dynamic=None):
+    """K2 predicate: the node performs the event itself (dynamic(A, env, e) if given, else spred) or is a direct call of
+    a function that must / may perform it"""
+    fset = must_do(P, spred) if mode == 'must' else may_do(P, spred)
+
+    def p(A, env, e):
+        if dynamic(A, env, e) if dynamic is not None else spred(A.F, e):
+            return True
+        nd = A.ex[e]
+        if nd['k'] == 'call' and 'd' in nd['callee']:
+            G = P.get(nd['callee']['d'], A.F)
+            return G is not None and P.key(G) in fset
+        return False
+    return p
